@@ -513,6 +513,7 @@ class MelodyLoader:
                     duplicates,
                 )
                 has_dups = True
+            seen_ids |= tree_ids
         if has_dups and not self.__ignore_uuid_dups:
             raise CorruptModelError(
                 "Model has duplicated UUIDs across fragments"
